@@ -126,6 +126,7 @@ type execResult struct {
 	tapeRec []uint32
 	failed  int // driver calls that returned an error to the engine
 	probes  map[string]int
+	inflightAtReturn int // driver calls still in flight at the moment the statement returned to its caller
 }
 
 func buildStore(ctx context.Context, gs []GraphData) storage.Store {
@@ -184,6 +185,9 @@ func execStatement(t *testing.T, gs []GraphData, text string, k ExecKnobs, fault
 				}
 			}()
 			er.tbl, er.err = server.BQL(ctx, text, st, k.ChanSize, k.BulkSize)
+			ss.mu.Lock()
+			er.inflightAtReturn = ss.inflight
+			ss.mu.Unlock()
 			er.done = true
 		})
 	})
@@ -461,6 +465,9 @@ func (h *faultHarness) judge(c *FaultCase, kind string, er *execResult, plan []F
 	}
 	if !er.done || er.res.Deadlock {
 		return mk("hang", "Execute did not return: no runnable task left\n%s\n%s", joinLines(er.res.Stuck, 8), er.res.LeakDump)
+	}
+	if er.inflightAtReturn > 0 {
+		return mk("driver-call-outlives-statement", "the statement returned to its caller while %d storage driver call(s) it had started were still in flight (a goroutine of the call was still inside the driver)", er.inflightAtReturn)
 	}
 	if er.res.Leaked > 0 {
 		return mk("goroutine-left", "%d goroutine(s) started for the call are still there after it returned:\n%s", er.res.Leaked, er.res.LeakDump)
